@@ -69,6 +69,7 @@ type Explorer struct {
 	Infeasible   int
 	branchSolver int
 	stubsUsed    map[string]int
+	shard        int
 }
 
 func NewExplorer(vm *VM, cfg *RunCfg) *Explorer {
@@ -84,6 +85,26 @@ func (ex *Explorer) noteFunc(fn *ssa.Function) {
 	}
 }
 
+// shardCheck prunes subtrees that belong to another shard (static partition of
+// the decision tree by the first ShardDepth decisions).
+func (ex *Explorer) shardCheck() {
+	n := ex.cfg.Shards
+	if n <= 1 || ex.replay {
+		return
+	}
+	d := ex.cfg.ShardDepth
+	if ex.pos != d {
+		return
+	}
+	h := 0
+	for i := 0; i < d; i++ {
+		h = h*31 + ex.trace[i].Choice + 7*i
+	}
+	if h%n != ex.shard {
+		panic(pathAbort{kind: "SKIP", msg: "other shard"})
+	}
+}
+
 // choose returns a decision in [0,n).
 func (vm *VM) choose(n int, label string, kind byte) int {
 	ex := vm.ex
@@ -96,6 +117,7 @@ func (vm *VM) choose(n int, label string, kind byte) int {
 			panic(pathAbort{kind: "ENGINE", msg: fmt.Sprintf("replay divergence at decision %d: recorded %c/%d (%s), now %c/%d (%s)", ex.pos, d.Kind, d.N, d.Label, kind, n, label)})
 		}
 		ex.pos++
+		ex.shardCheck()
 		return d.Choice
 	}
 	if ex.replay {
@@ -107,6 +129,7 @@ func (vm *VM) choose(n int, label string, kind byte) int {
 	ex.trace = append(ex.trace, Decision{Kind: kind, N: n, Choice: 0, Label: label})
 	ex.pos++
 	ex.DecisionPts++
+	ex.shardCheck()
 	return 0
 }
 
@@ -440,6 +463,9 @@ func (ex *Explorer) Run(runPath func() *PathResult) *Report {
 		case "OK":
 		case "INFEASIBLE":
 			ex.Infeasible++
+		case "SKIP":
+			ex.Paths--
+			ex.PathKinds["SKIP"]--
 		case "PANIC":
 			plabel := "panic:" + res.PanicKind + "@" + res.Fn
 			ex.recordViolation(ex.vm, nil, plabel, res.Msg+" at "+res.Pos+" in goroutine "+res.G, res.Pos, nil)
